@@ -292,7 +292,7 @@ def fault_must_fail(op: str, kind: str) -> bool:
     return kind in MUST_FAIL_KINDS and op == "sign"
 
 
-def enumerate_faults(j: Judge, r: Any, work: Path, scen: S.Scenario, ref: dict[str, Any], prev: bytes | None, bl: bytes | None, positions: list[int], case0: dict[str, Any]) -> None:
+def enumerate_faults(j: Judge, r: Any, work: Path, scen: S.Scenario, ref: dict[str, Any], prev: bytes | None, bl: bytes | None, positions: list[int], case0: dict[str, Any], **extra: Any) -> None:
     res = j.res
     other_key = K.rsa_keys(2048, 65537)[3]
     for pos in positions:
@@ -306,7 +306,7 @@ def enumerate_faults(j: Judge, r: Any, work: Path, scen: S.Scenario, ref: dict[s
                 f["pos"] = r.randrange(256)
                 f["bit"] = r.randrange(8)
             scen.plan = {pos: f}
-            o = R.run_ceremony(scen, work, answer="Yes", prev_xml=None if prev is None else prev.decode())
+            o = R.run_ceremony(scen, work, answer="Yes", prev_xml=None if prev is None else prev.decode(), **extra)
             scen.plan = {}
             case = dict(case0, stream="fault", prev=prev is not None, position=pos, op=op, kind=kind, module=ref["log"][pos].get("module"), slot=ref["log"][pos].get("slot"))
             must_fail = fault_must_fail(op, kind)
@@ -362,6 +362,14 @@ def run(tier: str, driver_ok: bool) -> Result:
                 else:
                     positions = list(range(len(ref["log"])))
                 enumerate_faults(j, r, work, scen, ref, prev, bl, positions, {"n": n})
+            # ---- (a'') the same faults at the SIGNING calls with the validation switches of OTHER checks turned off: "every requested
+            # signature … verified in software" is not one of the configurable checks (validate_signatures of the response policy
+            # governs the validation of loaded / finished responses, of the request policy the KSR's proof of possession)
+            sign_positions = [i for i, rec in enumerate(base["log"]) if rec["op"] == "sign"]
+            for tag, extra in (("response-policy", {"response_policy_extra": {"validate_signatures": False}}), ("both-policies", {"response_policy_extra": {"validate_signatures": False}, "rp_extra": {"validate_signatures": False}})):
+                ref_off = R.run_ceremony(sc, work, answer="Yes", **extra)
+                j.observe(ref_off, {"stream": "honest", "n": n, "prev": False, "validation_switched_off": tag}, None, sc=sc, expect_success=True)
+                enumerate_faults(j, r, work, sc, base, None, baseline, sign_positions if tier != "quick" else sign_positions[:2] + sign_positions[-1:], {"n": n, "validation_switched_off": tag}, **extra)
             # ---- (b) confirmation strings ------------------------------------------------------------------
             for ans in CONFIRMATIONS:
                 o = R.run_ceremony(sc, work, answer=ans)
